@@ -206,3 +206,15 @@ func mergeTinySegments(sps []oracle.Subpath, eps float64) []oracle.Subpath {
 	}
 	return out
 }
+
+// effectiveWidth is the line width in the target space when the user space maps to it by a
+// similarity (0 otherwise: the stroke is then not a constant-width band).
+func effectiveWidth(total aff, w float64) float64 {
+	a := total.a*total.a + total.b*total.b
+	b := total.c*total.c + total.d*total.d
+	c := total.a*total.c + total.b*total.d
+	if math.Abs(a-b) > 1e-9*math.Max(a, b) || math.Abs(c) > 1e-9*math.Max(a, b) {
+		return 0
+	}
+	return w * math.Sqrt(math.Abs(total.det()))
+}
